@@ -341,6 +341,17 @@ pub struct Verdict {
     pub known_hit: BTreeMap<String, u64>,
 }
 
+/// long strings (whole documents of the scale universe) are cut in the replay files; the replay
+/// itself re-derives the case from (space, index)
+fn truncate(v: &J) -> J {
+    match v {
+        J::String(s) if s.len() > 1500 => J::String(format!("{}… [{} bytes in total]", s.chars().take(1500).collect::<String>(), s.len())),
+        J::Array(a) => J::Array(a.iter().map(truncate).collect()),
+        J::Object(o) => J::Object(o.iter().map(|(k, x)| (k.clone(), truncate(x))).collect()),
+        x => x.clone(),
+    }
+}
+
 /// Classify, print the interface lines, write replay files.  Returns the process exit code.
 pub fn finish(
     prop: &str,
@@ -408,7 +419,8 @@ pub fn finish(
                 "count_in_run": v.count,
                 "space": v.space,
                 "index": v.index,
-                "detail": v.detail,
+                "detail": truncate(&v.detail),
+                "how_to_replay": format!("./mc/target/release/mc replay <this file>   (re-runs exactly {}[{}] with no explorer)", v.space, v.index),
             });
             let _ = std::fs::write(&path, serde_json::to_string_pretty(&body).unwrap());
             println!("VIOLATION property={} replay={}", prop, path);
@@ -418,7 +430,7 @@ pub fn finish(
                 v.count,
                 v.space,
                 v.index,
-                serde_json::to_string(&v.detail).unwrap_or_default()
+                serde_json::to_string(&truncate(&v.detail)).unwrap_or_default()
             );
             replay_paths.push(path);
         }
